@@ -860,6 +860,8 @@ def run(ctx):
     r01c(ctx)
     r01d(ctx)
     r01e(ctx)
+    from ..oneshot import e11
+    e11(ctx)          # candidate scans start afresh on every round (no one-shot iterator re-walked)
     r01f(ctx)
     r01g(ctx)
     ctx.assume("which equal-looking elements are the *right* ones to pair (values) and the behaviour of the third-party "
